@@ -1,5 +1,6 @@
 import CarModel.Proofs.Finalize
 import CarModel.Proofs.FactsTie
+import CarModel.Proofs.InspectFull
 /-
 C05 — Finalized output is a well-formed, self-describing CAR that matches what was put.
 -/
@@ -84,6 +85,35 @@ theorem finalized_reads_back (H : HashFn) (ro : ReadOpts) (seek : Bool) (o : WOp
     scanBlockReader H ro seek (layoutV2 o.dataPad o.indexPad (payload roots log) true o.storeIdentity index)
       = .ok ⟨roots.getD [], log, .eof⟩ :=
   scanBlockReader_v2 H ro seek o.dataPad o.indexPad roots log true o.storeIdentity index ok h10 lok
+
+/-- **The library's own inspection accepts the finalized file** (CARv2 mode): for every put history,
+    padding setting, index codec and identity setting, `Inspect` — with or without full validation —
+    of the layout `finalize_layout` leaves succeeds, and reports exactly the stored blocks' statistics,
+    the header of `header_arith` and the index codec that was written. -/
+theorem finalized_inspection_accepts (H : HashFn) (hU : H.Uniform) (ro : ReadOpts) (validate : Bool) (o : WOpts)
+    (roots : Option (List Cid)) (log : List Block) (ix : Index)
+    (hwf : (CarHeader.mk roots 1).wf) (hmax : (encodeHeaderBody ⟨roots, 1⟩).length ≤ ro.maxHeader)
+    (h63 : (encodeHeaderBody ⟨roots, 1⟩).length < 2 ^ 63) (h10 : 10 ≤ ro.maxHeader)
+    (lok : LayoutOK o.dataPad o.indexPad (payload roots log).length)
+    (hok : ∀ b ∈ log, b.wf ro.maxSection ∧ b.cid.digest.length ≤ maxDigestAlloc ∧
+      (validate = true → sumOk H b.cid b.data = true ∧ verifies H b.cid b.data = true)) :
+    inspect H ro validate (layoutV2 o.dataPad o.indexPad (payload roots log) true o.storeIdentity ix.bytes)
+      = .ok (statsOf 2 (finalHeader o.dataPad o.indexPad (payload roots log).length true o.storeIdentity)
+              (roots.getD []) (log.map seenOf) ix.codec) := by
+  have := inspect_layoutV2 H hU ro validate o.dataPad o.indexPad roots log true o.storeIdentity ix.bytes ix.codec
+    hwf hmax h63 h10 lok hok (fun _ => index_bytes_codec ix)
+  simpa using this
+
+/-- … and in CARv1 mode, where the file is the payload (`v1_file_is_payload`). -/
+theorem v1_inspection_accepts (H : HashFn) (hU : H.Uniform) (ro : ReadOpts) (validate : Bool)
+    (roots : Option (List Cid)) (log : List Block)
+    (hwf : (CarHeader.mk roots 1).wf) (hmax : (encodeHeaderBody ⟨roots, 1⟩).length ≤ ro.maxHeader)
+    (h63 : (encodeHeaderBody ⟨roots, 1⟩).length < 2 ^ 63)
+    (hok : ∀ b ∈ log, b.wf ro.maxSection ∧ b.cid.digest.length ≤ maxDigestAlloc ∧
+      (validate = true → sumOk H b.cid b.data = true ∧ verifies H b.cid b.data = true)) :
+    inspect H ro validate (payload roots log) = .ok (statsOf 1 {} (roots.getD []) (log.map seenOf) 0) := by
+  have := inspect_layoutV1 H hU ro validate roots log hwf hmax h63 hok
+  exact this
 
 /-- Non-vacuity of `header_arith`/`finalize_layout` premises on a fresh store with paddings. -/
 example : let o : WOpts := { dataPad := 7, indexPad := 3 }
